@@ -324,7 +324,7 @@ func (r *runner[C]) replayFile(t *testing.T, path string) {
 	r.mu.Unlock()
 	if verr := r.account(c, true); verr != nil {
 		fmt.Printf("VIOLATION property=%s replay=%s\n", r.id, path)
-		fmt.Printf("  detail: %s\n", firstLines(verr.Error(), 30))
+		fmt.Printf("  detail: %s\n", firstLines(verr.Error(), 400))
 		r.mu.Lock()
 		if len(r.ev.Violations) > 0 {
 			r.ev.Violations[0].Replay = path
